@@ -40,4 +40,17 @@ def SharedWrite.safe (r : SharedWrite) : Bool :=
 /-- known-finding key of a site -/
 def SharedWrite.key (r : SharedWrite) : String := "shared-" ++ r.attr ++ ":" ++ r.file ++ ":" ++ r.func
 
+/-- one row of the generated alias table (extract/field_aliases.py): a Field object that the LIBRARY made reachable from
+    two different field declarations (so its scratch `_name` is a cell shared by calls on different fields / classes) -/
+structure FieldAlias where
+  objType : String
+  /-- "same-class" (two fields of one class) or "cross-class" -/
+  scope : String
+  /-- declaration spellings through which the object is reached -/
+  spellings : String
+  path : String
+  deriving DecidableEq, Repr
+
+def FieldAlias.key (r : FieldAlias) : String := "field-object-aliased:" ++ r.objType
+
 end Typedpy.Sched
